@@ -784,6 +784,22 @@ impl ExecutionState {
     /// Generate a random u64 from the current scheduler and return it.
     #[inline]
     pub fn next_u64() -> u64 {
+        // A random draw is a step of the schedule too. If the step bound has already been reached,
+        // hand control back to the scheduling loop, which fails or abandons the execution as
+        // configured, instead of recording a step beyond the bound.
+        let at_bound = Self::with(|state| {
+            !state.in_cleanup
+                && match state.config.max_steps {
+                    MaxSteps::FailAfter(max_steps) | MaxSteps::ContinueAfter(max_steps) => {
+                        state.is_step_bound_exceeded(max_steps)
+                    }
+                    MaxSteps::None => false,
+                }
+        });
+        if at_bound {
+            thread::switch();
+        }
+
         Self::with(|state| {
             CurrentSchedule::push_random();
             state.scheduler.borrow_mut().next_u64()
